@@ -83,7 +83,7 @@ def sfloat(x):
         return -1.0
 
 
-def file_traces(tid0, res, encoding, meta, desc):
+def file_traces(tid0, res, encoding, meta, desc, max_records=None):
     """for every rule file: neutral view vs each real loader's view"""
     from lib_scorer.pcfg_password_scorer import PCFGPasswordScorer
     from lib_scorer import grammar_io as sgio
@@ -178,6 +178,8 @@ def file_traces(tid0, res, encoding, meta, desc):
         floats.update(p for _, p in got)
     rk = {v: i + 1 for i, v in enumerate(sorted(floats))}
     for reader, label, ok, want, got in views:
+        if max_records is not None and len(want) > max_records:
+            continue            # (a file of a shipped ruleset too long for one TLC trace)
         tid += 1
         traces.append({'tid': tid, 'kind': 'file', 'reader': reader, 'ok': bool(ok),
                        'want': [[cps(v), rk[p]] for v, p in want], 'got': [[cps(v), rk[p]] for v, p in got]})
@@ -281,6 +283,17 @@ def main(pid, tier, seed):
                     traces += tr
                     n_tiny[0] += 1
 
+    # ---- the shipped rulesets (written by the trainer on real data): every rule file of up to 1500 records as each loader reads it
+    n_shipped_files = 0
+    for rname in (('Default',) if tier == 'quick' else ('Default', 'Russian')):
+        d_ = os.path.join(core.REPO, 'Rules', rname)
+        if os.path.isdir(os.path.join(d_, 'Grammar')):
+            before_ = len(traces)
+            tr, tid = file_traces(tid, {'dir': d_, 'captured': {}}, 'utf-8', meta, {'encoding': 'utf-8', 'variant': 'shipped ruleset ' + rname},
+                                  max_records=1500)
+            traces += tr
+            n_shipped_files += len(traces) - before_
+
     # ---- a ruleset trained again IN PLACE on a list that lacks whole categories (no walk, digit, symbol, capital, year):
     # ---- what the second training wrote must again be what every loader reads, and the config lists = the files present
     rich = ['password1', 'Password!', '1qaz2wsx', 'zaq1!', 'love2019', 'abc#1', 'MONKEY12', '123456', '!!', 'qwer1234', 'a1!B2', 'x<3']
@@ -325,7 +338,7 @@ def main(pid, tier, seed):
            'model_checking': mc, 'evaluations': len(traces), 'distinct_nontrivial': distinct,
            'rule': 'one trace = one rule file of one real training (accepted special characters of every class in every position, '
                    'per encoding) as one real loader read it, against the LF-only neutral reading; plus config.ini lists',
-           'rulesets_with_level_probabilities_below_the_machine_epsilon': n_tiny[0], 'code_points_classified': 0x110000, 'representatives_probed': sum(len(v) for v in reps.values()),
+           'rulesets_with_level_probabilities_below_the_machine_epsilon': n_tiny[0], 'views_of_shipped_rule_files': n_shipped_files, 'code_points_classified': 0x110000, 'representatives_probed': sum(len(v) for v in reps.values()),
            'trainings': n_train, 'trace_validation': st, 'exhaustive': False, 'binding_selftest': selftest,
            'known_findings_reproduced': n_known, 'violation_histogram': verdict.histogram()}
     core.write_evidence(pid, tier, seed, 'model_checking', cov, time.time() - t0, violations=n_viol,
